@@ -139,10 +139,7 @@ pub fn set_operator(input: Input<'_>) -> ParserResult<'_, SetOperator> {
 /// ```
 fn element_set_specs(input: Input<'_>) -> ParserResult<'_, ElementSetSpecs> {
     into(pair(
-        alt((
-            map(set_operation, ElementOrSetOperation::SetOperation),
-            map(subtype_elements, ElementOrSetOperation::Element),
-        )),
+        element_or_set_operation,
         opt(skip_ws_and_comments(preceded(
             char(COMMA),
             extension_marker,
@@ -151,16 +148,17 @@ fn element_set_specs(input: Input<'_>) -> ParserResult<'_, ElementSetSpecs> {
     .parse(input)
 }
 
-fn set_operation(input: Input<'_>) -> ParserResult<'_, SetOperation> {
-    into((
-        subtype_elements,
-        set_operator,
-        alt((
-            map(set_operation, ElementOrSetOperation::SetOperation),
-            map(subtype_elements, ElementOrSetOperation::Element),
+/// Parses the first element once and then looks for a set operator, so that nested
+/// constraints are not parsed again for every alternative.
+fn element_or_set_operation(input: Input<'_>) -> ParserResult<'_, ElementOrSetOperation> {
+    let (input, base) = subtype_elements(input)?;
+    match opt(pair(set_operator, element_or_set_operation)).parse(input)? {
+        (input, Some((operator, operant))) => Ok((
+            input,
+            ElementOrSetOperation::SetOperation((base, operator, operant).into()),
         )),
-    ))
-    .parse(input)
+        (input, None) => Ok((input, ElementOrSetOperation::Element(base))),
+    }
 }
 
 /// Parses a UnionMark.
@@ -417,10 +415,7 @@ fn permitted_alphabet_constraint(input: Input<'_>) -> ParserResult<'_, SubtypeEl
         skip_ws_and_comments(map(
             preceded(
                 tag(FROM),
-                in_parentheses(alt((
-                    map(set_operation, ElementOrSetOperation::SetOperation),
-                    map(subtype_elements, ElementOrSetOperation::Element),
-                ))),
+                in_parentheses(element_or_set_operation),
             ),
             |i| SubtypeElements::PermittedAlphabet(Box::new(i)),
         )),
